@@ -83,7 +83,10 @@ class History:
         elif r < 0.9:
             kw = dict(sound_name=rng.choice(STRS), location_x=rng.randint(0, 9), location_y=rng.randint(0, 9))
         from AoE2ScenarioParser.datasets import effects
+        from AoE2ScenarioParser.datasets.effects import EffectId
         attrs = set(effects.attributes.get(et, []))
+        if et == int(EffectId.SCRIPT_CALL):
+            kw = {}                    # no XS code: the save would start the external xs-check binary (not runnable here)
         if "armour_attack_class" in attrs and rng.random() < 0.85:
             # armour/attack effects need their pair (an unset pair is the library's `[]` sentinel: known finding F15)
             kw = dict(armour_attack_class=rng.choice([0, 1, 3, 30, 255, rng.randint(0, 255)]),
